@@ -443,6 +443,18 @@ func checkRoundTrip(tb ev.TB, a *refcodec.API, ver int16, body map[string]any, r
 		}
 		return libtypes.NewResponse(a.Key)
 	}
+	// the bytes belong to the caller: another Marshal (of an empty message of the same type, and of the same value) leaves
+	// them alone
+	keep := append([]byte{}, b...)
+	_, _ = protocol.Marshal(ver, reflect.ValueOf(fresh()).Elem().Interface())
+	if !bytes.Equal(b, keep) {
+		ev.Fail(tb, "frame", sig("marshal-result-not-private"), mk(), "%s v%d %s: the bytes returned by Marshal changed when Marshal was called again for another value: were % x, are % x", a.Name, ver, dir, keep, b)
+		return
+	}
+	if again, err := protocol.Marshal(ver, reflect.ValueOf(msg).Elem().Interface()); err != nil || !bytes.Equal(again, keep) {
+		ev.Fail(tb, "frame", sig("marshal-not-deterministic"), mk(), "%s v%d %s: Marshal of the same value gave other bytes the second time: % x, then % x (err %v)", a.Name, ver, dir, keep, again, err)
+		return
+	}
 	for _, cut := range []int{len(b) / 2, len(b) - 1} {
 		if cut >= 0 && cut < len(b) {
 			_ = protocol.Unmarshal(b[:cut], ver, fresh())
